@@ -699,6 +699,9 @@ def run_seed(seed, profile=None):
             distinct.add((st["op"], repr(sorted((st.get("loc") or {}).items())), st.get("glyph"), scn["round_geometry"],
                           corpusworlds.describe(scn["world"]["spec"]), scn["mat"]["mode"]))
     out["stats"]["distinct"] = sorted(distinct, key=repr)
+    out["stats"]["interleavings"] = [gen07._digest([scn["mat"]["mode"], scn["round_geometry"]] + [
+        [st["op"], (st.get("edit") or {}).get("kind"), bool(st.get("fault")), (ev.get("outcome") or "")[:4]]
+        for st, ev in zip(scn["steps"], res["events"])])]
     out["scenario_digest"] = gen07._digest(scn)
     out["log_digest"] = gen07._digest([[e.get("op"), e.get("outcome"), e.get("fired"), e.get("violations")]
                                        for e in res["events"]])
